@@ -208,6 +208,39 @@ def run(tier, t0):
                     res.violation('C06.7', 'C06.7|remove|%s' % f.qual, f, t.get('line'), 'a CFI rule is removed from the map (%s): its register would be neither set nor cleared' % key[:80])
             else:
                 res.violation('C06.7', 'C06.7|%s|%s' % (op, f.qual), f, t.get('line'), 'unexpected mutation `%s` of the CFI rule map' % op)
+    # C06.9 one register, one key: `$rax:` and `rax:` name the same rule
+    res.rule('C06.9', 0, floor=1, note='the map key of a register label is the label without one leading `$`, whichever spelling the record uses')
+    pf = [f for f in c.fns if f.path == W + 'parse_cfi_exprs']
+    nother = 0
+    for f in pf:
+        for b in sorted(f.reach):
+            for s_ in f.blocks[b]['s']:
+                if not (s_['k'] == 'assign' and s_['rv']['k'] == 'agg' and s_['rv'].get('ak') == 'adt' and s_['rv']['adt'].endswith('CfiReg') and s_['rv'].get('variant') == 'Other'):
+                    continue
+                nother += 1
+                res.rule('C06.9', 1)
+                x = f.expand(f.operand_tree(s_['rv']['xs'][0]))
+
+                def stripped(t):
+                    return is_call(t, 'strip_prefix') and len(t) == 4 and t[3] in (('int', 36), ('char', '$'), ('str', '$'))
+                ok = False
+                if x[0] == 'field' and x[-1] == '0' and x[1][0] == 'downcast' and x[1][-1] == 'Some' and stripped(x[1][1]):
+                    ok = True           # if let Some(t) = label.strip_prefix('$') { Other(t) }
+                elif show(x).startswith('(Some.0 ') and 'strip_prefix' in show(x):
+                    inner = [t for t in walk(x) if stripped(t)]
+                    ok = bool(inner)
+                elif is_call(x, 'Option::unwrap_or') and len(x) == 4 and stripped(x[2]) and x[2][2] == x[3]:
+                    ok = True           # Other(label.strip_prefix('$').unwrap_or(label))
+                else:
+                    # the label as it is: only where it was just found not to start with `$`
+                    facts = [r for r, gd, sx in panics.dominating_facts(f, b)]
+                    for r in facts:
+                        if r[0] == 'switch' and r[1][0] == 'discr' and stripped(f.expand(r[1][1])) and r[2] in (0, ('not', 1)) and f.expand(r[1][1])[2] == x:
+                            ok = True
+                if not ok:
+                    res.violation('C06.9', 'C06.9|key', f, s_.get('line'), 'a register label becomes the map key %s without its leading `$` being dropped: `$r:` and `r:` would be two rules' % show(x)[:120])
+    if pf and not nother:
+        res.error('C06.9', 'parse_cfi_exprs builds no CfiReg::Other key')
     # C06.6 only rules at or below the address, in address order
     res.rule('C06.6', 0, floor=4, note='additional rules = add_rules[0..count], count advanced under add_rules[count].address <= addr; add_rules sorted; CfiRules orders by address first')
     wfr = None
